@@ -99,3 +99,6 @@ func (pool *TxPool) VerifMuFree() bool {
 	}
 	return false
 }
+
+// VerifEvictionInterval exposes the period of the lifetime-eviction ticker.
+func VerifEvictionInterval() time.Duration { return evictionInterval }
